@@ -972,6 +972,18 @@ func (st *Std) inline(call *ast.CallExpr, n ast.Node, s S, cl *Client) []S {
 	}
 	cur := st.Cur()
 	cf := cur.CalleeFunc(call)
+	if cf == nil {
+		// a call of a function-typed parameter of an inlined helper that the caller bound
+		// to a function literal (`scanRows(rows, func(id string, p Point) { … })`): the
+		// literal is evaluated in place; what it captures are the caller's variables
+		if id, ok := ast.Unparen(call.Fun).(*ast.Ident); ok && len(st.frames) > 0 {
+			if o := ObjOf(st.F.Info(), id); o != nil && st.IsFrameParam(o) {
+				if lit, ok := ast.Unparen(st.Resolve(id)).(*ast.FuncLit); ok {
+					cf = st.F.Prog.LitFunc(st.F.PkgRel(), lit)
+				}
+			}
+		}
+	}
 	if cf == nil || cf.Body == nil || cf.Pkg != st.F.Pkg || cf == st.F {
 		return []S{s}
 	}
